@@ -604,12 +604,17 @@ pub struct InCase {
     /// pending: the request was made after block_on() began, so the call finishes that iteration and returns None
     #[serde(default)]
     pub first_poll_stop: bool,
+    /// between the earlier calls and the judged one the application calls wakeup() (no wait is in progress) and then
+    /// dispatch(None) itself: "if none is in progress, the next wait returns promptly" - whatever an earlier, stopped
+    /// call left behind
+    #[serde(default)]
+    pub wakeup_between: bool,
 }
 
 pub fn in_strategy() -> impl Strategy<Value = InCase> {
     let act = prop_oneof![3 => Just(InAct::Stop), 3 => Just(InAct::Complete), 4 => Just(InAct::Wake), 1 => Just(InAct::Wakeup), 2 => Just(InAct::Idle), 2 => Just(InAct::IdleChain)];
-    (proptest::collection::vec(any::<bool>(), 0..=2), any::<bool>(), proptest::collection::vec(proptest::collection::vec(act, 0..=4), 1..=5), prop::bool::weighted(0.3), prop::bool::weighted(0.2))
-        .prop_map(|(prelude, block_on, rounds, closure_idle, first_poll_stop)| InCase { prelude, block_on, rounds, closure_idle, first_poll_stop: first_poll_stop && block_on })
+    (proptest::collection::vec(any::<bool>(), 0..=2), any::<bool>(), proptest::collection::vec(proptest::collection::vec(act, 0..=4), 1..=5), prop::bool::weighted(0.3), prop::bool::weighted(0.2), prop::bool::weighted(0.25))
+        .prop_map(|(prelude, block_on, rounds, closure_idle, first_poll_stop, wakeup_between)| InCase { prelude, block_on, rounds, closure_idle, first_poll_stop: first_poll_stop && block_on, wakeup_between })
 }
 
 struct InFut {
@@ -728,6 +733,37 @@ pub fn run_inloop(case: &InCase) -> CaseOutcome {
             prelude_viol = Some(Violation::new("C11.block_on_wake", format!("block_on call #{} on the same loop never polled its future", k + 1)).with_sig("C11.block_on_wake/inloop"));
         }
     }
+    if case.wakeup_between && prelude_viol.is_none() {
+        // nothing is ready, nothing is armed but the rescue timer: only the wake-up can end this wait
+        let rescued = Arc::new(AtomicBool::new(false));
+        let r2 = rescued.clone();
+        let rescue = handle
+            .insert_source(calloop::timer::Timer::from_duration(Duration::from_millis(2000)), move |_, _, _| {
+                r2.store(true, Ordering::SeqCst);
+                calloop::timer::TimeoutAction::Drop
+            })
+            .expect("insert rescue timer");
+        signal.wakeup();
+        let r = el.dispatch(None, &mut ());
+        handle.remove(rescue);
+        if r.is_err() || rescued.load(Ordering::SeqCst) {
+            prelude_viol = Some(
+                Violation::new(
+                    "C11.wakeup",
+                    format!(
+                        "wakeup() was called while no wait was in progress (after {} earlier block_on call(s) on this loop, the last one {}), the following dispatch(None) did not return until a 2 s rescue timer fired: the wake-up was lost",
+                        case.prelude.len(),
+                        match case.prelude.last() {
+                            Some(false) => "ended by stop()",
+                            Some(true) => "completed",
+                            None => "-",
+                        }
+                    ),
+                )
+                .with_sig("C11.wakeup/between-calls"),
+            );
+        }
+    }
     let complete = Arc::new(AtomicBool::new(false));
     let waker: Arc<Mutex<Option<Waker>>> = Arc::new(Mutex::new(None));
     let polls = Arc::new(AtomicU32::new(0));
@@ -833,6 +869,9 @@ pub fn run_inloop(case: &InCase) -> CaseOutcome {
     }
     if first_poll_stop {
         info.classes.push("inloop_stop_requested_by_the_first_poll");
+    }
+    if case.wakeup_between {
+        info.classes.push(if case.prelude.last() == Some(&false) { "inloop_wakeup_between_calls_after_a_stopped_call" } else { "inloop_wakeup_between_calls" });
     }
     let viol = (|| {
         if let Some(v) = prelude_viol {
